@@ -135,7 +135,9 @@ def convert_h5_group_to_dict(
             object_,
             bytes_,
         }:
-            value = value[0] if value.size == 1 else value.tolist()
+            # An array of strings is a list of strings, even with a single item:
+            # a single string is stored as a scalar dataset, not as an array.
+            value = value.tolist()
 
         if isinstance(value, bytes):
             value = value.decode()
